@@ -5,7 +5,11 @@ package main
 import (
 	"fmt"
 	"go/ast"
+	"go/constant"
 	"go/token"
+	"os"
+	"path/filepath"
+	"sort"
 	"strings"
 )
 
@@ -61,11 +65,89 @@ func errorsOnlyGrow(c *CheckCtx) error {
 	return nil
 }
 
+// escapeSetIsDocumented: the list that is both "what may follow a backslash" and "what a bare character may not be" is
+// data, not code: its literal must be the set written in docs/5-definitions.md (escaped_char). A data obligation on the
+// typed AST of the real source (no SMT needed: both sides are literals).
+func escapeSetIsDocumented(c *CheckCtx) error {
+	doc, err := os.ReadFile(filepath.Join(c.Repo, "docs/5-definitions.md"))
+	if err != nil {
+		return err
+	}
+	var want []string
+	for _, line := range strings.Split(string(doc), "\n") {
+		if strings.HasPrefix(strings.TrimSpace(line), "escaped_char") && strings.Contains(line, "=") {
+			i := strings.Index(line, "(")
+			j := strings.LastIndex(line, ")")
+			if i < 0 || j < i {
+				continue
+			}
+			for _, part := range strings.Split(line[i+1:j], "|") {
+				part = strings.TrimSpace(part)
+				// the alternative for the bar itself is written "|" and is cut in two by the split
+				if part == "\"" {
+					continue
+				}
+				want = append(want, strings.Trim(part, "\""))
+			}
+			want = append(want, "|")
+		}
+	}
+	if len(want) < 5 {
+		return fmt.Errorf("could not read the documented escape set from docs/5-definitions.md")
+	}
+	var got []string
+	found := false
+	for _, p := range c.Eng.roots {
+		if !strings.HasSuffix(p.PkgPath, "internal/regex/parser") {
+			continue
+		}
+		for _, f := range p.Syntax {
+			ast.Inspect(f, func(nd ast.Node) bool {
+				vs, ok := nd.(*ast.ValueSpec)
+				if !ok || len(vs.Names) != 1 || vs.Names[0].Name != "escapedChars" || len(vs.Values) != 1 {
+					return true
+				}
+				cl, ok := vs.Values[0].(*ast.CompositeLit)
+				if !ok {
+					return true
+				}
+				found = true
+				for _, e := range cl.Elts {
+					if tv, ok := p.TypesInfo.Types[e]; ok && tv.Value != nil {
+						if v, ok := constant.Int64Val(tv.Value); ok {
+							got = append(got, string(rune(v)))
+						}
+					}
+				}
+				return true
+			})
+		}
+	}
+	key := func(xs []string) string {
+		ys := append([]string{}, xs...)
+		sort.Strings(ys)
+		return strings.Join(ys, " ")
+	}
+	if !found || key(got) != key(want) {
+		c.ExtraFindings = append(c.ExtraFindings, Finding{
+			Obligation: "regex/parser.escapedChars#literal[documented-escape-set]",
+			What:       fmt.Sprintf("the escape set of the pattern grammar is not the documented one: code has {%s}, docs/5-definitions.md (escaped_char) has {%s}: a character in the code's set only is rejected when written bare and accepted after a backslash although the grammar says otherwise", key(got), key(want)),
+			Replay:     map[string]any{"kind": "data obligation on the typed AST", "code_set": got, "documented_set": want}})
+	}
+	c.Notes = append(c.Notes, fmt.Sprintf("literal[documented-escape-set]: escapedChars has %d elements, the documented escaped_char rule %d (data obligation, not SMT-discharged)", len(got), len(want)))
+	return nil
+}
+
 func init() {
 	register(&PropSpec{
 		ID: "C09", Level: "other",
 		Pkgs:  []string{"./internal/regex/parser", "./internal/regex/parser/nfa", "./internal/regex/parser/ast"},
-		Extra: errorsOnlyGrow,
+		Extra: func(c *CheckCtx) error {
+			if err := errorsOnlyGrow(c); err != nil {
+				return err
+			}
+			return escapeSetIsDocumented(c)
+		},
 		Select: []Selector{
 			{Units: `regex/parser\.(Parser\.Parse|New|newStringInput|stringInput\.(Current|Remaining)|toNum|toDigit)$`},
 			{Units: `regex/parser/(nfa|ast)\.Parse$`},
